@@ -973,6 +973,14 @@ def search(ctx, budget):
         ctx.case(("oracle-pdhg-accel", json.dumps(spec, sort_keys=True)))
         ctx.count("oracle:PrimalDualHybridGradient:%s" % spec["acc"])
         check_instance(ctx, spec["cls"], spec["max_iter"], spec, "search", use_app=(i % 5 == 4))
+    # accelerated proximal gradient with a projection prox: the momentum point z and the iterate x must BOTH have stopped
+    # moving before done() may be true (family box-momentum of make(): x is clipped on consecutive updates while z moves)
+    for i in range(int(40 * budget)):
+        spec = dict(cls="GradientMethod", max_iter=rng.choice([30, 60]), seed=rng.randint(0, 2 ** 31),
+                    fam=rng.choice(["box-momentum", "box-momentum", "box", "l1"]), accel=True)
+        ctx.case(("oracle-gm-accel", json.dumps(spec, sort_keys=True)))
+        ctx.count("oracle:GradientMethod:accelerated:%s" % spec["fam"])
+        check_instance(ctx, spec["cls"], spec["max_iter"], spec, "search", use_app=(i % 5 == 4))
     for i in range(int(20 * budget)):
         spec = dict(cls="NewtonsMethod", max_iter=rng.choice([5, 30]), seed=rng.randint(0, 2 ** 31),
                     beta=rng.choice([0.5, 0.8]), nfam=rng.choice(["quartic", "quad"]))
